@@ -63,3 +63,22 @@ class DT_replace:
     def ensures(self, tzinfo, result):
         return (result == with_tz(self, tzinfo) and result.tzinfo == tzinfo
                 and (result.time is None) == (self.time is None))
+
+
+# ---------------------------------------------------------------------------- FREEBUSY periods
+opaque("Period", attrs={"start": "int", "end": "int"})
+ghost("periods_of", ["opaque:PropSource"], "list[opaque:Period]")
+
+
+@contract("iface:PropSource.get", variant="periods",
+          params={"self": "opaque:PropSource", "name": "str", "default": "list[opaque:Period]"},
+          returns="list[opaque:Period]", assumed=True)
+class PropSource_get_periods:
+    """comp.get("FREEBUSY", []): the periods of the component's FREEBUSY property (already
+    time-zone aware instants), or the default when there is none."""
+
+    def requires(self, name):
+        return name == "FREEBUSY"
+
+    def ensures(self, name, default, result):
+        return result == (periods_of(self) if prop_of(self, name) is not None else default)
